@@ -3,8 +3,8 @@
 sd=$(realpath $1); tier=$2; shift 2
 cd "$(dirname "$0")/.."
 if [ -n "$(git -C /repo status --porcelain)" ]; then echo "/repo not clean"; exit 3; fi
-trap 'git -C /repo checkout -- . ; git -C /repo clean -fdq -- src notebooks' EXIT
-git -C /repo apply $sd/patch.diff || { echo "patch does not apply"; exit 3; }
+trap 'git -C /repo reset -q --hard HEAD ; git -C /repo clean -fdq -- src notebooks' EXIT
+git -C /repo apply $sd/patch.diff 2>/dev/null || git -C /repo apply --3way $sd/patch.diff 2>/dev/null || { echo "patch does not apply"; exit 3; }
 t=$(cd /repo && /venv/bin/python -m pytest -q -p no:cacheprovider 2>&1 | tail -1)
 REPO_ROOT=/repo PYTHONPATH=/repo/src timeout 300 /venv/bin/python $sd/demo.py > /dev/null 2>&1; d=$?
 scr=$(mktemp -d /tmp/seedconf_XXXX)
